@@ -135,6 +135,11 @@ pub trait Property: Sync + Send {
         &["kind", "fam", "q", "op", "root", "uri", "name", "file", "path"]
     }
     /// minimum number of distinct non-trivial cases below which the run is "inconclusive"
+    /// Is "a case never returns" itself a violation of this property (termination / totality
+    /// properties), or only a reason to call the run inconclusive?
+    fn hang_is_violation(&self) -> bool {
+        false
+    }
     fn min_nontrivial(&self, _tier: Tier) -> u64 {
         2
     }
